@@ -5,6 +5,8 @@ harness's own bookkeeping (handles it created, namespaces it requested): it neve
 iterates a set or dict of library objects, so the *schedule* is the same under
 every PYTHONHASHSEED even where the *outcome* differs.
 """
+from collections import defaultdict
+
 from . import pools
 
 DEFAULT_PROFILE = {
@@ -62,6 +64,7 @@ DEFAULT_PROFILE = {
     "multi_value": 0.3,  # add a second value to an existing extra attribute
     "fmt": "json",
     "mention": True,
+    "mutate_derived": False,  # derived documents are targets of ordinary operations too
 }
 
 
@@ -96,14 +99,15 @@ class Gen(object):
         self.n = 0
         # harness bookkeeping (what *we* asked for, in order)
         self.docs = []  # doc handles
-        self.bundles = {}  # doc handle -> [bundle handles]
+        self.bundles = defaultdict(list)  # doc handle -> [bundle handles]
         self.free = []  # free bundle handles
         self.parent = {}  # container handle -> parent doc handle | None
-        self.ns_req = {}  # container -> [(prefix, uri)] requested (add_ns / qn), in order
-        self.ns_obj = {}  # container -> [(prefix, uri)] requested through add_ns (object kept)
+        self.ns_req = defaultdict(list)  # container -> [(prefix, uri)] requested (add_ns / qn)
+        self.ns_obj = defaultdict(list)  # container -> [(prefix, uri)] requested via add_ns
         self.default_req = {}  # container -> uri (first set_default/empty-prefix request)
-        self.recs = {}  # container -> [(rh, kind, has_id)]
-        self.ids = {}  # container -> [name spec of identifiers used]
+        self.recs = defaultdict(list)  # container -> [(rh, kind, has_id)]
+        self.ids = defaultdict(list)  # container -> [name spec of identifiers used]
+        self.derived_docs = []  # derived handles that are documents
         self.derived = []  # handles produced by unified/flattened/roundtrip/doc_from
         self.attrs_used = {}  # rh -> [(attr spec)]
 
@@ -114,11 +118,7 @@ class Gen(object):
 
     def _add_doc(self, h):
         self.docs.append(h)
-        self.bundles[h] = []
         self.parent[h] = None
-        self.ns_req[h] = []
-        self.recs[h] = []
-        self.ids[h] = []
 
     def _add_bundle(self, h, dh):
         if dh is None:
@@ -126,9 +126,11 @@ class Gen(object):
         else:
             self.bundles[dh].append(h)
         self.parent[h] = dh
-        self.ns_req[h] = []
-        self.recs[h] = []
-        self.ids[h] = []
+
+    def _add_derived(self, h, is_doc=True):
+        self.derived.append(h)
+        if is_doc:
+            self.derived_docs.append(h)
 
     def containers(self):
         out = []
@@ -136,6 +138,13 @@ class Gen(object):
             out.append(d)
             out.extend(self.bundles[d])
         out.extend(self.free)
+        if self.p.get("mutate_derived"):
+            for d in self.derived:
+                out.append(d)
+                out.extend(self.bundles[d])
+                if d in self.derived_docs:
+                    # bundles the library created inside a derived document: "<doc>#<k>"
+                    out.append("%s#%d" % (d, self.rng.randrange(3)))
         return out
 
     def pick_container(self, bias_bundle=0.4):
@@ -556,7 +565,7 @@ class Gen(object):
     def g_doc_from(self):
         ch = self.pick_container()
         h = self.fresh("D")
-        self.derived.append(h)
+        self._add_derived(h)
         return ["doc_from", h, ch]
 
     def g_update(self):
@@ -587,13 +596,13 @@ class Gen(object):
     def g_unified(self):
         ch = self.rng.choice(self.containers() + self.derived)
         h = self.fresh("U")
-        self.derived.append(h)
+        self._add_derived(h, is_doc=(ch in self.docs or ch in self.derived_docs))
         return ["unified", h, ch]
 
     def g_flattened(self):
-        dh = self.rng.choice(self.docs + [d for d in self.derived])
+        dh = self.rng.choice(self.docs + self.derived_docs)
         h = self.fresh("L")
-        self.derived.append(h)
+        self._add_derived(h)
         return ["flattened", h, dh]
 
     def json_opts(self):
@@ -618,7 +627,7 @@ class Gen(object):
         rng = self.rng
         dh = rng.choice(self.docs)
         h = self.fresh("R")
-        self.derived.append(h)
+        self._add_derived(h)
         fmt = self.p["fmt"]
         return [
             "roundtrip", h, dh, fmt, self.write_opts(fmt),
@@ -643,7 +652,7 @@ class Gen(object):
 
     def g_export(self):
         rng = self.rng
-        dh = rng.choice(self.docs + self.derived)
+        dh = rng.choice(self.docs + self.derived_docs)
         k = rng.choice(["json", "xml", "rdf", "provn", "provn_direct", "graph", "dot"])
         if k in ("json", "xml", "rdf", "provn"):
             return ["serialize", dh, k, self.write_opts(k)]
